@@ -673,8 +673,42 @@ struct Extractor : public RecursiveASTVisitor<Extractor> {
         return true;
     }
 
+    // optional (env SFX_LAMBDA_VARTYPE_RE): emit a lambda only if one of the variables declared by the leading
+    // statements of its body has a type matching the regex (Engine::execute has ~1600 case lambdas, each
+    // identified by the type of its `cur` binding)
+    bool lambdaVarTypeOk(const Stmt* Body) {
+        static const char* re = getenv("SFX_LAMBDA_VARTYPE_RE");
+        if (!re || !*re) return true;
+        static llvm::Regex R(re);
+        auto* CS = dyn_cast_or_null<CompoundStmt>(Body);
+        if (!CS) return false;
+        unsigned n = 0;
+        for (const Stmt* S : CS->body()) {
+            if (++n > 4) break;
+            if (auto* DS = dyn_cast<DeclStmt>(S))
+                for (const Decl* D : DS->decls())
+                    if (auto* V = dyn_cast<VarDecl>(D))
+                        if (R.match(ty(V->getType()))) return true;
+        }
+        return false;
+    }
+
     bool VisitLambdaExpr(LambdaExpr* LE) {
         CXXMethodDecl* MD = LE->getCallOperator();
+        // generic lambda: RecursiveASTVisitor does not reach the instantiations of its call operator
+        if (MD && !MD->getParent()->isDependentContext()) {
+            if (FunctionTemplateDecl* FT = LE->getLambdaClass()->getDependentLambdaCallOperator()) {
+                for (FunctionDecl* Spec : FT->specializations()) {
+                    if (!Spec->doesThisDeclarationHaveABody() || Spec->isDependentContext()) continue;
+                    if (!seenFuncs.insert(Spec).second) continue;
+                    const Stmt* B = Spec->getBody();
+                    if (!B || !wantFile(B->getBeginLoc())) continue;
+                    emitFunction(Spec, B, LE);
+                    TraverseStmt(const_cast<Stmt*>(B));
+                }
+                return true;
+            }
+        }
         if (!MD || MD->isDependentContext()) return true;
         if (!MD->doesThisDeclarationHaveABody()) return true;
         if (!seenFuncs.insert(MD).second) return true;
@@ -692,6 +726,7 @@ struct Extractor : public RecursiveASTVisitor<Extractor> {
             DC = DC->getParent();
         }
         if (!encl.empty() && !NameRe.match(encl)) return true;
+        if (!lambdaVarTypeOk(MD->getBody())) return true;
         emitFunction(MD, MD->getBody(), LE);
         return true;
     }
